@@ -707,8 +707,20 @@ func (s *BgpServer) postFilterpath(peer *peer, path *table.Path) *table.Path {
 }
 
 func (s *BgpServer) filterpath(peer *peer, path, old *table.Path) *table.Path {
+	received := path
 	path, options, stop := s.prePolicyFilterpath(peer, path, old)
 	if stop {
+		// The new version of the route must not go to this peer (not
+		// importable into its VRF any more, loop prevention, ...). If the
+		// version it replaces was advertised, the peer must not keep it.
+		// (Route Target membership NLRI have their own rules in
+		// prePolicyFilterpath: an unchanged local membership is skipped on
+		// purpose and must not be withdrawn.)
+		if received != nil && !received.IsWithdraw && old != nil && received.GetFamily() != bgp.RF_RTC_UC {
+			if o := filteredPathForPeer(peer, old); o != nil && peer.hasPathAlreadyBeenSent(o) {
+				return o.Clone(true)
+			}
+		}
 		return nil
 	}
 	options.Validate = s.roaTable.Validate
